@@ -39,8 +39,11 @@ GROUP = {
         U("ConfigSet::select_impl", CFG, [r"impl ConfigSet\b", r"fn select_impl\b"], fn="select_impl", wrap=("impl ConfigSet {", "}"),
           rewrites=[RET(),
                     ("R17-hoist-nested-fn", "re:fn has_matches\\([^{]*\\{(?:[^{}]|\\{(?:[^{}]|\\{[^{}]*\\})*\\})*\\}\\s*", "", 1),
-                    ("R35-filter-map-collect", "re:let mut matched: Vec<\\(usize, &ConfigFragment\\)> = self\\s*\\.entries\\s*\\.iter\\(\\)\\s*\\.filter_map\\(\\|x\\| has_matches\\(x, fp\\)\\)\\s*\\.collect\\(\\);",
+                    ("R35-filter-map-collect", "re:let mut (\\w+): Vec<\\(usize, &ConfigFragment\\)> = self\\s*\\.entries\\s*\\.iter\\(\\)\\s*\\.filter_map\\(\\|x\\| has_matches\\(x, fp\\)\\)\\s*\\.collect\\(\\);",
                      "let mut matched: Vec<(usize, &ConfigFragment)> = Vec::new(); let ghost mut pos__: Seq<int> = Seq::empty();\n        for i__ in 0..self.entries.len() { let x = &self.entries[i__]; match has_matches(x, fp) { Some(y__) => { matched.push(y__); proof { pos__ = pos__.push(i__ as int); } } None => {} } }", 1),
+                    # the name the code gives the vector is irrelevant: the remaining statements are brought to the name the contract uses
+                    ("R0-local-name", "re:\\b(?!matched\\b)(\\w+)\\.sort_by_key\\(\\|x\\| x\\.0\\);", "matched.sort_by_key(|x| x.0);", "opt"),
+                    ("R0-local-name", "re:\\b(?!matched\\b)(\\w+)(\\s*\\.into_iter\\(\\)\\s*\\.fold\\(None,)", "matched\\2", "opt"),
                     ("R24-sort-by-key", "matched.sort_by_key(|x| x.0);", "let ghost pos0__ = pos__; let ghost matched0__ = matched@; let perm__ = sort_by_key_stable(&mut matched); proof { pos__ = Seq::new(pos0__.len(), |k: int| pos0__[perm__@[k]]); }", 1),
                     ("R36-fold", "re:matched\\s*\\.into_iter\\(\\)\\s*\\.fold\\(None, \\|res, item\\| match res \\{\\s*None => Some\\(item\\.1\\.clone\\(\\)\\),\\s*Some\\(prev\\) => Some\\(prev\\.merge\\(item\\.1\\.clone\\(\\)\\)\\),\\s*\\}\\)\\s*\\.map\\(\\|x\\| x\\.try_into\\(\\)\\)",
                      "{ let mut res: Option<ConfigFragment> = None;\n          for k__ in 0..matched.len() { let item = matched[k__]; res = match res { None => Some(item.1.clone()), Some(prev) => Some(prev.merge(item.1.clone())) }; }\n          match res { Some(x) => Some(config_entry_try_from(x)), None => None } }", 1)],
